@@ -277,3 +277,45 @@ func TestC07(t *testing.T) {
 	r.Rapid("random", r.N(200000, 3000000), random)
 	_ = strings.TrimSpace
 }
+
+// FuzzC07: coverage-guided mutation of (encoded rule set, raw target); same oracles as TestC07.
+func FuzzC07(f *testing.F) {
+	f.Add([]byte{1, 1, 0, 2, 3, 1, 2, 3}, "/admin?x=.css")
+	f.Add([]byte{2, 0, 1, 0, 2, 0, 1, 1, 1, 3, 2, 0, 0}, "/a/b#?x")
+	f.Add([]byte{1, 0, 1, 3, 4, 11, 12, 0, 1}, "?x")
+	f.Add([]byte{}, "")
+	alpha := c07Alpha + "*^$()[]+\\"
+	cache := map[string]*server.ExtAuthZFilter{}
+	f.Fuzz(func(t *testing.T, data []byte, target string) {
+		pos := 0
+		next := func(n int) int {
+			if pos >= len(data) || n <= 0 {
+				return 0
+			}
+			v := int(data[pos]) % n
+			pos++
+			return v
+		}
+		pat := func() c07Pat {
+			p := c07Pat{Kind: next(5)}
+			for i, n := 0, next(6); i < n; i++ {
+				p.S += string(alpha[next(len(alpha))])
+			}
+			return p
+		}
+		rules := make([]c07Rule, next(4))
+		for i := range rules {
+			for j, n := 0, next(3); j < n; j++ {
+				rules[i].Ex = append(rules[i].Ex, pat())
+			}
+			for j, n := 0, next(3); j < n; j++ {
+				rules[i].In = append(rules[i].In, pat())
+			}
+		}
+		r := sim.NewRun(t, "C07F")
+		r.Direct("fuzz", nil, func(c *sim.Case) { c07Judge(c, cache, rules, target) })
+		if r.Failed() {
+			t.Fatalf("violation: rules=%v target=%q", rules, target)
+		}
+	})
+}
